@@ -183,6 +183,7 @@ def scramble(h, codes, trace=None, warmup=None):
          (e is inserted again should the call have removed it)
       8  remove a hyperedge, ask the queries, insert it again (the last mutation is an insertion)
       9  insert an extra hyperedge, ask the queries, remove it (the last mutation is a removal)
+     14  the hypergraph-level metadata replaced wholesale ({'name': 'toy'})
      12  copy(), edit and query the COPY, drop it; go on with the original
      13  read everything through the public API, ask the queries, clear(), rebuild
      11  an insertion the container may refuse (weight 3 on an unweighted container; metadata
@@ -201,7 +202,7 @@ def scramble(h, codes, trace=None, warmup=None):
         z = fresh_label(nodes)
         edges = list(h.get_edges())
         a = sorted(nodes, key=repr)[0]
-        code = code % 14
+        code = code % 15
         if code == 10 and (kind == "DirectedHypergraph" or z is None or not edges):
             code = 4
         if code == 7 and kind not in ("Hypergraph", "DirectedHypergraph"):
@@ -293,6 +294,12 @@ def scramble(h, codes, trace=None, warmup=None):
                     ask()
                     rem(other)
                     step = "insert %r, query, remove it" % (other,)
+        elif code == 14 and hasattr(h, "set_hypergraph_metadata"):
+            # the hypergraph-level metadata replaced wholesale by a user's own fields: the
+            # implementation's 'weighted'/'type' entries are gone, the object is what it was
+            # (none of the modules using these detours looks at the hypergraph metadata)
+            h.set_hypergraph_metadata({"name": "toy"})
+            step = "set_hypergraph_metadata({'name': 'toy'})"
         elif code == 12 and hasattr(h, "copy") and edges:
             # a copy is taken, EDITED and dropped; the module goes on with the original, which
             # must not have been touched through tables the copy shares with it
@@ -538,7 +545,7 @@ def history_codes(*parts):
     if int(d[0], 16) < 8:
         return []
     n = 1 + int(d[1], 16) % 3
-    return [int(d[2 + 2 * i:4 + 2 * i], 16) % 14 for i in range(n)]
+    return [int(d[2 + 2 * i:4 + 2 * i], 16) % 15 for i in range(n)]
 
 
 def default_warmup(h):
